@@ -1,6 +1,7 @@
 import XeofsProofs.Lemmas.EofModel
 import XeofsProofs.Lemmas.Misc13
 import XeofsProofs.Props.C04
+import XeofsProofs.Lemmas.MccaModel
 import XeofsModel.Scaler
 import Mathlib.Data.Matrix.ColumnRowPartitioned
 import XeofsModel.Generated.Facts
@@ -63,5 +64,18 @@ theorem src_pca_transform_is_projection :
 transformed -/
 theorem src_normalized_uses_fitted_norms :
     Gen.singleTransformNormalizedBody.head? = some "data2D = data2D / self.data['norms']" := by decide
+
+/-- **multi-set CCA on the executable model**: `transform` is a per-sample map — row `i` of the answer reads row `i` of the new
+data only -/
+theorem model_mcca_transform_row_local {n m Q k : ℕ} (F : XM.MccaFit n Q k ℝ ℝ) (blkQ : Fin Q → ℕ) (X Y : XM.Mat m Q ℝ) (v : ℕ)
+    (i : Fin m) (h : ∀ a, X.get i a = Y.get i a) (j : Fin k) :
+    (XM.mccaTransform F blkQ X v).get i j = (XM.mccaTransform F blkQ Y v).get i j :=
+  XP.MccaM.transform_row F blkQ X Y v i h j
+
+/-- … and the answer for view `v` depends on that view's own columns only (no view is projected with another view's weights) -/
+theorem model_mcca_transform_reads_own_view {n m Q k : ℕ} (F : XM.MccaFit n Q k ℝ ℝ) (blkQ : Fin Q → ℕ) (X Y : XM.Mat m Q ℝ) (v : ℕ)
+    (h : ∀ i a, blkQ a = v → X.get i a = Y.get i a) :
+    XM.mccaTransform F blkQ X v = XM.mccaTransform F blkQ Y v :=
+  XP.MccaM.transform_reads_own_view F blkQ X Y v h
 
 end C05
